@@ -10,12 +10,24 @@ theorem allChecked_fields {cfg : Cfg} (h : cfg.allChecked = true) :
     cfg.closeChecks = true ∧ cfg.procCheck = true ∧ cfg.deadlineChecks = true ∧ cfg.didResumeDetaches = true ∧
     cfg.scheduleBumps = true ∧ cfg.canceledGuard = true ∧ cfg.sleepRounds = true := by
   simp [Cfg.allChecked] at h
-  obtain ⟨⟨⟨⟨⟨⟨⟨⟨⟨⟨⟨⟨a, b⟩, c⟩, d⟩, e⟩, f⟩, g⟩, i⟩, j⟩, k⟩, l⟩, _⟩, _⟩ := h
+  obtain ⟨⟨⟨⟨⟨⟨⟨⟨⟨⟨⟨⟨⟨⟨⟨a, b⟩, c⟩, d⟩, e⟩, f⟩, g⟩, i⟩, j⟩, k⟩, l⟩, _⟩, _⟩, _⟩, _⟩, _⟩ := h
   exact ⟨a, b, c, d, e, f, g, i, j, k, l⟩
 
 theorem allChecked_hasReader {cfg : Cfg} (h : cfg.allChecked = true) : cfg.hasReaderChecks = true := by
   simp [Cfg.allChecked] at h
+  exact h.1.1.1.1.2
+
+theorem allChecked_didResumeFirst {cfg : Cfg} (h : cfg.allChecked = true) : cfg.didResumeFirst = true := by
+  simp [Cfg.allChecked] at h
+  exact h.1.1.2
+
+theorem allChecked_procErrCheck {cfg : Cfg} (h : cfg.allChecked = true) : cfg.procErrCheck = true := by
+  simp [Cfg.allChecked] at h
   exact h.1.2
+
+theorem allChecked_resumeBumps {cfg : Cfg} (h : cfg.allChecked = true) : cfg.resumeBumps = true := by
+  simp [Cfg.allChecked] at h
+  exact h.2
 
 theorem TaskOk.of_eq {w w' : World} {t : Task} (h : TaskOk w t) (hf : w'.fibers = w.fibers) (hn : w'.now = w.now) : TaskOk w' t :=
   ⟨h.gen, by rw [hf]; exact h.le, by rw [hn]; exact h.nb, h.sl⟩
@@ -162,26 +174,33 @@ theorem timerPhase_inv (cfg : Cfg) (hc : cfg.allChecked = true) (fuel : Nat) {w 
 
 theorem runTask_inv (cfg : Cfg) (hc : cfg.allChecked = true) {w : World} (h : Inv w) : Inv (runTask cfg w) := by
   obtain ⟨hrf, -, -, -, -, -, -, hdr, -, -, -⟩ := allChecked_fields hc
+  have hdf := allChecked_didResumeFirst hc
   unfold runTask
   cases hq : w.queue with
   | nil => exact h
   | cons t q =>
     simp only
     have ht := h.q t (by rw [hq]; simp)
-    have h1 : Inv { w with queue := q, fibers := set w.fibers t.fiber { w.fibers t.fiber with canceled := false } } := by
+    have hgen : ∀ fb' : Fiber, (w.fibers t.fiber).schedId ≤ fb'.schedId →
+        Inv { w with queue := q, fibers := set w.fibers t.fiber fb' } := by
+      intro fb' hle
       refine ⟨?_, h.l, h.tm⟩
       intro x hx
       have := h.q x (by rw [hq]; simp [hx])
       refine ⟨this.gen, ?_, this.nb, this.sl⟩
       by_cases hf : x.fiber = t.fiber
-      · simp only [hf, set_same]; rw [← hf]; exact this.le
+      · have hle' := this.le
+        rw [hf] at hle'
+        simp only [hf, set_same]
+        exact Nat.le_trans hle' hle
       · simp only [set_other _ _ _ _ hf]; exact this.le
-    rw [hrf, hdr]
+    rw [hrf, hdr, hdf]
     by_cases hne : (true && t.expected != (w.fibers t.fiber).schedId) = true
-    · rw [if_pos hne]; exact h1
+    · rw [if_pos hne]; exact hgen _ (Nat.le_refl _)
     · rw [if_neg hne]
-      simp only [if_true]
+      simp only [Bool.true_or, Bool.and_self, if_true]
       have heq : t.expected = (w.fibers t.fiber).schedId := by simpa using hne
+      have h1 := hgen ({ (w.fibers t.fiber) with canceled := false, epoch := (w.fibers t.fiber).epoch + 1, schedId := (if cfg.resumeBumps then (w.fibers t.fiber).schedId + 1 else (w.fibers t.fiber).schedId) } : Fiber) (by simp only; split <;> omega)
       have h2 := asyncEnd_inv h1 t.fiber
       refine ⟨fun t ht => (h2.q t ht).of_eq rfl rfl, ?_, h2.tm⟩
       intro e he
@@ -252,18 +271,46 @@ theorem step_inv (cfg : Cfg) (hc : cfg.allChecked = true) {w : World} (h : Inv w
   | procWait f k => exact h.frame rfl rfl rfl (fun _ => Nat.le_refl _) (Nat.le_refl _)
   | procExit k st =>
     have hpc : cfg.procCheck = true := (allChecked_fields hc).2.2.2.2.2.1
+    have hpe := allChecked_procErrCheck hc
     simp only [step, procExit]
     split
     · exact h
     · rename_i f g hfg
       have h1 : Inv { w with procs := set w.procs k none } := h.frame rfl rfl rfl (fun _ => Nat.le_refl _) (Nat.le_refl _)
-      rw [hpc]
-      by_cases hd : (!(w.fibers f).dead && (!true || live w f g)) = true
-      · rw [if_pos hd]
-        have hl : g = (w.fibers f).schedId := by
-          simp [live] at hd; exact hd.2.symm
-        exact schedule_inv cfg hb h1 _ _ _ _ _ _ hl (Nat.le_refl _) (noSleep (by intro s d; simp))
-      · rw [if_neg hd]; exact h1
+      rw [hpc, hpe]
+      by_cases hl : live w f g = true
+      · have hl' : g = (w.fibers f).schedId := by simp [live] at hl; exact hl.symm
+        split
+        · split
+          · split
+            · exact schedule_inv cfg hb h1 _ _ _ _ _ _ hl' (Nat.le_refl _) (noSleep (by intro s d; simp))
+            · exact h1
+          · split
+            · exact schedule_inv cfg hb h1 _ _ _ _ _ _ hl' (Nat.le_refl _) (noSleep (by intro s d; simp))
+            · exact h1
+        · exact h1
+      · simp only [hl, Bool.not_true, Bool.or_self, Bool.false_eq_true, if_false]
+        split
+        · split <;> exact h1
+        · exact h1
+  | procFlag k x => exact h.frame rfl rfl rfl (fun _ => Nat.le_refl _) (Nat.le_refl _)
+  | childEnter f =>
+    refine h.frame rfl rfl rfl ?_ (Nat.le_refl _)
+    intro g
+    by_cases hg : g = f
+    · subst hg; simp [step]
+    · simp [step, set_other _ _ _ _ hg]
+  | childLeave f =>
+    have h1 : Inv { w with fibers := set w.fibers f { w.fibers f with depth := (w.fibers f).depth - 1 } } := by
+      refine h.frame rfl rfl rfl ?_ (Nat.le_refl _)
+      intro g
+      by_cases hg : g = f
+      · subst hg; simp
+      · simp [set_other _ _ _ _ hg]
+    simp only [step]
+    split
+    · exact asyncEnd_inv h1 f
+    · exact h1
   | advance dt => exact h.frame rfl rfl rfl (fun _ => Nat.le_refl _) (Nat.le_add_right _ _)
   | timers => exact timerPhase_inv cfg hc _ h
   | run => exact runTask_inv cfg hc h
